@@ -592,10 +592,55 @@ def _call_with(fn, kw):
         g['glom'] = old
 
 
+# ---------------------------------------------------------------------------
+# histories: several exception classes with the same __name__ pass through glom() in one process
+
+def dup_classes():
+    def mk(base, mod):
+        cls = type('ConnectionError', (base,), {'__module__': mod})
+        return cls
+    return [('builtin', ConnectionError), ('user-exc', mk(Exception, 'libA')), ('user-valueerror', mk(ValueError, 'libB')),
+            ('user-glomerror', mk(GlomError, 'libC')), ('user-oserror-sub', mk(OSError, 'libD'))]
+
+
+def run_dup(case):
+    order, kwname = case
+    classes = dict(dup_classes())
+    for step, name in enumerate(order):
+        cls = classes[name]
+        O = cls('m%d' % step)
+
+        def raiser(t, O=O):
+            raise O
+        kw = mk_kwargs(kwname, O)
+        try:
+            outcome = ('returned', glom({'a': 1}, ('a', raiser), **kw))
+        except BaseException as e:
+            outcome = ('raised', e)
+        problem = judge('pass', O, kwname, outcome, {})
+        if problem:
+            return R({'expected': 'see observed', 'observed': problem, 'history': order[:step + 1], 'class': '%s.%s' % (cls.__module__, cls.__name__),
+                      'kwargs': kwname}, 'dup')
+    return R(None, 'ok', nontrivial=len(order) > 1, steps=len(order), tags={kwname})
+
+
+def gen_dup(tier):
+    names = [n for n, _ in dup_classes()]
+    cases = []
+    for n in (1, 2, 3):
+        for order in itertools.permutations(names, n):
+            for kwname in ('none', 'default', 'skip-hit', 'debug'):
+                cases.append([list(order), kwname])
+    return cases
+
+
 def subs(tier, only=None):
     from ..engine import fast_tracebacks
     fast_tracebacks()
     out = [
+        Sub('same-name-classes', gen_dup(tier), run_dup,
+            rule='case = (ordered history of <= 3 exception classes that share one __name__, kwargs): each is raised through glom() in turn in ONE process '
+                 'and must obey the pass-through rules (a wrapper keyed by class name would confuse them)', min_nontrivial=100, min_outcomes=1),
         Sub('one-fault', gen_cases(tier), run_case,
             rule='case = (skeleton, fault site index, exception shape, kwargs setting): every execution with exactly one deviation from the '
                  'fault-free run; sites are learned by a counting run of each skeleton',
